@@ -14,6 +14,12 @@ def configs(tier, seed):
         for branch in ("pre", "fn"):
             cfgs.append(dict(kind="cut", n=n, k=k, branch=branch, clusters=2 if n < 4 else 3, logic="fresh",
                              weight=(n ** n) * 40, timeout_ms=60000))
+    # the training samples stand for permuted rows of a larger distance table (Node.idx != position)
+    for n, k, idx in ([(2, 1, [2, 0]), (3, 1, [3, 0, 2])] if tier == "quick" else
+                      [(2, 1, [2, 0]), (3, 1, [3, 0, 2]), (3, 2, [1, 3, 0]), (4, 1, [2, 4, 0, 1])]):
+        for branch in ("pre", "fn"):
+            cfgs.append(dict(kind="cut", n=n, k=k, branch=branch, idx=idx, clusters=2 if n < 4 else 3, logic="fresh",
+                             weight=(n ** n) * 40, timeout_ms=60000))
     return cfgs
 
 
@@ -24,7 +30,7 @@ def signature(prop, cfg, viol):
 
 def describe(v, tier):
     v.bounds = dict(max_k="<= 5 (quick) / <= 8 (thorough), every min_k <= max_k",
-                    normalised_cut="definition checked on injected graphs: n<=3, k<=2, every neighbour choice and 2-clustering (quick) / n<=4, 3 clusters (thorough), symbolic asymmetric distances (zeros included)")
+                    normalised_cut="definition checked on injected graphs: n<=3, k<=2, every neighbour choice and 2-clustering (quick) / n<=4, 3 clusters (thorough), symbolic asymmetric distances (zeros included); also with the samples standing for permuted rows of a larger table (Node.idx != position)")
     v.assumptions = ["the criterion is an environment stub: each evaluation returns an arbitrary real (accuracy in [0,1]; "
                      "cut in [0, 1e6]), which over-approximates every data set; arc creation / pdf / clustering / predict are recording no-ops",
                      "the criteria themselves are checked by C20 (accuracy)"]
